@@ -202,7 +202,8 @@ def run(tier):
     c.set("scenarios", len(seeds))
     c.set("scenario_totals", tot)
     c.set("scenario_features", feats)
-    if (tot.get("blocks_frozen", 0) < 1 or tot.get("side_wiped", 0) < 1 or tot.get("crash_points", 0) < 5
+    # a vacuity alarm never hides a violation that was found
+    if not c.violations and (tot.get("blocks_frozen", 0) < 1 or tot.get("side_wiped", 0) < 1 or tot.get("crash_points", 0) < 5
             or tot.get("compared_frozen", 0) < 100 or tot.get("power_cuts_lost_items", 0) < 1
             or tot.get("side_removed_compared", 0) < 1):
         raise V.ToolError("vacuous scenario run: %s" % tot)
